@@ -16,7 +16,8 @@ cd /tmp/iso/repo
 if ! git apply --check "$PATCH" 2>/dev/null; then echo "patch does not apply: $PATCH"; cd /repo; git worktree remove --force /tmp/iso/repo; exit 2; fi
 git apply "$PATCH"
 rm -rf /tmp/iso/verif; mkdir -p /tmp/iso/verif
-rsync -a --exclude target /verif/harness /tmp/iso/verif/
+EXC="--exclude target --exclude target-miri --exclude target-tsan"; [ "$TIER" = thorough ] || EXC="$EXC --exclude target-asan"
+rsync -a $EXC /verif/harness /tmp/iso/verif/
 cp /verif/check /verif/known_findings.json /tmp/iso/verif/
 sed -i 's#"/repo/#"/tmp/iso/repo/#g' /tmp/iso/verif/harness/Cargo.toml
 cd /tmp/iso/verif
